@@ -1,7 +1,116 @@
 import IbModel.Util.Wire
-/-! Driver handlers for C06 (request kinds served for that property). -/
-namespace IB.D06
+import IbModel.Model.Combiners
+/-!
+Driver handlers for C06.
 
-def handlers : List (String × (List String → String)) := []
+`COMB <name> <k> <all-values> | <postfix program>`  ↦  `<tree-output> <fold-output> <tree-accumulator>`
+
+* `<name>` ∈ count sum min max avg fsum dcount dset topk; `<k>` is only used by `topk` (else `0`).
+* `<all-values>`: comma-separated numbers (`-` = none) — the whole input in its original order; the second
+  answer token is `finish(add_input* (create))` over it.
+* postfix program over a stack of accumulators: `A:<vals>` push `create()+add_input*`; `B:<vals>` push
+  `build_from_group(vals)`; `P:<vals>` `add_input*` onto the top; `M` pop `r`, `merge(&mut top, r)`.
+  Exactly one accumulator must remain; its `finish` is the first answer token.
+* numbers are integers, or decimals (`-1.125`) for `avg`/`fsum` (read as exact rationals).
+* `<tree-accumulator>`: the accumulator the program leaves, before `finish`, in canonical form (`a=…`;
+  set / heap contents ascending; `F<sum> n=<count>` for `avg`).
+* outputs: integer; `PANIC`; `F<decimal>` (rational, 15 fractional digits); lists comma-separated (`-` = empty).
+-/
+namespace IB.D06
+open IB IB.Wire IB.Combiners
+
+inductive Tok (V : Type) where
+  | a (xs : List V) | b (xs : List V) | p (xs : List V) | m
+
+def parseList? {V : Type} (num? : String → Option V) (s : String) : Option (List V) :=
+  if s == "" || s == "-" then some [] else (s.splitOn ",").mapM num?
+
+def parseTok? {V : Type} (num? : String → Option V) (s : String) : Option (Tok V) :=
+  if s == "M" then some .m
+  else if s.startsWith "A:" then (parseList? num? (s.drop 2).toString).map .a
+  else if s.startsWith "B:" then (parseList? num? (s.drop 2).toString).map .b
+  else if s.startsWith "P:" then (parseList? num? (s.drop 2).toString).map .p
+  else none
+
+/-- run the postfix program, building the `MergeTree` the theorems are about -/
+def build? {V : Type} : List (Tok V) → List (MergeTree V) → Option (MergeTree V)
+  | [], [t] => some t
+  | [], _ => none
+  | .a xs :: rest, st => build? rest (.leaf xs :: st)
+  | .b xs :: rest, st => build? rest (.built xs :: st)
+  | .p xs :: rest, t :: st => build? rest (.more t xs :: st)
+  | .p _ :: _, [] => none
+  | .m :: rest, r :: l :: st => build? rest (.node l r :: st)
+  | .m :: _, _ => none
+
+def parseDec? (s : String) : Option Rat :=
+  let neg := s.startsWith "-"
+  let body := if neg then (s.drop 1).toString else s
+  let r : Option Rat :=
+    match body.splitOn "." with
+    | [i] => i.toNat?.map (fun n => (n : Rat))
+    | [i, f] =>
+      match i.toNat?, f.toNat? with
+      | some n, some m => if f.length == 0 then none else some ((n : Rat) + (m : Rat) / ((10 ^ f.length : Nat) : Rat))
+      | _, _ => none
+    | _ => none
+  r.map (fun x => if neg then -x else x)
+
+def pad (n : Nat) (s : String) : String := String.ofList (List.replicate (n - s.length) '0') ++ s
+
+/-- exact rational as `F<decimal>` truncated to 15 fractional digits -/
+def showRat (q : Rat) : String :=
+  let neg := q.num < 0
+  let n := q.num.natAbs
+  let d := q.den
+  let ip := n / d
+  let fp := (n % d) * 10 ^ 15 / d
+  "F" ++ (if neg then "-" else "") ++ toString ip ++ "." ++ pad 15 (toString fp)
+
+def showInts (xs : List Int) : String := if xs.isEmpty then "-" else ",".intercalate (xs.map toString)
+def showOpt : Option Int → String
+  | some v => toString v
+  | none => "PANIC"
+
+def run {V A O : Type} (c : Combiner V A O) (num? : String → Option V) (show_ : O → String)
+    (showAcc : A → String) (all : String) (prog : List String) : String :=
+  match parseList? num? all, prog.mapM (parseTok? num?) with
+  | some xs, some toks =>
+    match build? toks [] with
+    | some t =>
+      let acc := t.eval c
+      show_ (c.finish acc) ++ " " ++ show_ (c.finish (c.foldAdd c.create xs)) ++ " " ++ showAcc acc
+    | none => "BAD-OP"
+  | _, _ => "BAD-OP"
+
+def accInt (a : Int) : String := "a=" ++ toString a
+def accNat (a : Nat) : String := "a=" ++ toString a
+def accOpt : Option Int → String
+  | some v => "a=" ++ toString v
+  | none => "a=none"
+/-- a hash set's contents in canonical (ascending) order -/
+def accSet (s : List Int) : String := "a=" ++ showInts (s.mergeSort leInt)
+/-- the heap's contents, ascending — the model's list is printed as it is -/
+def accHeap (h : List Int) : String := "a=" ++ showInts h
+
+def handleComb : List String → String
+  | name :: k :: all :: "|" :: prog =>
+    match parseNat? k with
+    | none => "BAD-OP"
+    | some k =>
+      match name with
+      | "count" => run (count Int) parseInt? toString accNat all prog
+      | "sum" => run sum parseInt? toString accInt all prog
+      | "min" => run minC parseInt? showOpt accOpt all prog
+      | "max" => run maxC parseInt? showOpt accOpt all prog
+      | "avg" => run average parseDec? showRat (fun a => showRat a.1 ++ " n=" ++ toString a.2) all prog
+      | "fsum" => run sumRat parseDec? showRat showRat all prog
+      | "dcount" => run (distinctCount Int) parseInt? toString accSet all prog
+      | "dset" => run distinctSet parseInt? showInts accSet all prog
+      | "topk" => run (topK k) parseInt? showInts accHeap all prog
+      | _ => "BAD-OP"
+  | _ => "BAD-OP"
+
+def handlers : List (String × (List String → String)) := [("COMB", handleComb)]
 
 end IB.D06
